@@ -52,14 +52,6 @@ PairCase(A, B) ==
    exp |-> [mul |-> Mul(A, B), muleq |-> Mul(A, B), detmul |-> Det(A) * Det(B), detprod |-> Det(A) * Det(B),
             add |-> MAdd(A, B), sub |-> MSub(A, B)]]
 
-\* second operands (the same family LinAlgebraMC uses): the group and matrices of every determinant -4..4
-Partner3 == Rot \cup {Diag(<<1, 1, -1>>), Diag(<<-1, -1, -1>>), Diag(<<0, 1, 1>>), Diag(<<0, 0, 0>>),
-                      << <<1, 1, 0>>, <<0, 1, 1>>, <<0, 0, 1>> >>, << <<1, 0, 0>>, <<-1, 1, 0>>, <<1, -1, 1>> >>,
-                      << <<1, 1, 1>>, <<1, 1, 1>>, <<1, 1, 1>> >>, << <<1, -1, 0>>, <<1, 1, 0>>, <<0, 0, 1>> >>,
-                      << <<1, 1, 0>>, <<-1, 1, 1>>, <<0, -1, 1>> >>, << <<1, 1, 0>>, <<1, -1, 1>>, <<0, 1, 1>> >>,
-                      << <<1, 1, -1>>, <<-1, 1, 1>>, <<1, -1, 1>> >>, << <<-1, 1, 1>>, <<1, -1, 1>>, <<1, 1, -1>> >>,
-                      << <<0, 1, 1>>, <<1, 0, 1>>, <<1, 1, 0>> >>, << <<1, -1, 1>>, <<0, 0, 1>>, <<-1, -1, 0>> >>}
-
 \* --------------------------------------------------------------------------
 \* group "lin2": everything about 2x2 matrices and affine maps of the plane
 \* --------------------------------------------------------------------------
